@@ -118,7 +118,7 @@ pub fn run(tier: Tier) -> i32 {
             }
         }
         let jobs: Vec<(usize, usize)> = (0..ws.len()).flat_map(|w| (0..devsets.len()).map(move |d| (w, d))).collect();
-        par_for(jobs.len(), 4, |j| {
+        rep.par_for(jobs.len(), 4, "C10 part 1", |j| {
             let (wi, di) = jobs[j];
             let w = &ws[wi];
             let wrev: Vec<f64> = w.iter().rev().cloned().collect();
